@@ -152,20 +152,43 @@ def isFinal (s : State Uri Text Chg Req Resp Diag) : Bool :=
   (match s.reader with | .idle => true | _ => false) &&
   (match s.broker with | .idle => true | _ => false)
 
+/-- The broker request a client message turns into (`none`: answered by the reader alone). -/
+def toBReq : CMsg Uri Text Chg Req Resp → Option (BReq Uri Text Chg Req)
+  | .open u t => some (.open u t)
+  | .change u c => some (.change u c)
+  | .close u => some (.close u)
+  | .docReq id u r => some (.getInfo id u r)
+  | .otherReq _ _ => none
+
+def optList {α} : Option α → List α
+  | some a => [a]
+  | none => []
+
+/-- Outputs of the broker handling one request completely (diagnostics, then reply). -/
+def handleOut (docs : Docs Uri Text) (b : BReq Uri Text Chg Req) : Docs Uri Text × List (Out Uri Resp Diag) :=
+  let r := brokerHandle f diagOn docs b
+  (r.1, optList r.2.1 ++ optList r.2.2)
+
+/-- The broker working off a queue of requests sequentially. -/
+def runBroker (docs : Docs Uri Text) : List (BReq Uri Text Chg Req) → Docs Uri Text × List (Out Uri Resp Diag)
+  | [] => (docs, [])
+  | b :: bs =>
+    let r := handleOut f diagOn docs b
+    let r2 := runBroker r.1 bs
+    (r2.1, r.2 ++ r2.2)
+
 /-- The single-threaded reference: handle one client message completely before the next. -/
 def seqRun (docs : Docs Uri Text) : List (CMsg Uri Text Chg Req Resp) → List (Out Uri Resp Diag)
   | [] => []
-  | .open u t :: rest =>
-    (if diagOn then [.diag u (f.analyze t)] else []) ++ seqRun (docs.set u t) rest
-  | .change u c :: rest =>
-    match docs.get u with
-    | some t =>
-      let t' := f.applyChange t c
-      (if diagOn then [.diag u (f.analyze t')] else []) ++ seqRun (docs.set u t') rest
-    | none => seqRun docs rest
-  | .close u :: rest => seqRun (docs.remove u) rest
-  | .docReq id u r :: rest => .resp id (f.answer (docs.get u) r) true :: seqRun docs rest
-  | .otherReq id resp :: rest => .resp id resp false :: seqRun docs rest
+  | m :: rest =>
+    match toBReq m with
+    | some b =>
+      let r := handleOut f diagOn docs b
+      r.2 ++ seqRun r.1 rest
+    | none =>
+      match m with
+      | .otherReq id resp => .resp id resp false :: seqRun docs rest
+      | _ => seqRun docs rest
 
 end
 
